@@ -25,6 +25,10 @@ type PartCase struct {
 	Family string    `json:"family"`
 	CIDLen int       `json:"cidlen"`
 	Recs   []RecSpec `json:"recs"`
+	// NoCID13: DTLS 1.3 family only - the unified records carry no connection ID although a length is
+	// configured (the listener's router and a connection whose ID is not negotiated yet parse with
+	// cidRequired=false)
+	NoCID13 bool `json:"nocid13,omitempty"`
 }
 
 func buildRecord(cidLen int, rs RecSpec, idx int) []byte {
@@ -74,6 +78,9 @@ func genPart(t *rapid.T) PartCase {
 	n := rapid.IntRange(1, 6).Draw(t, "n")
 	family := rapid.SampledFrom([]string{"legacy", "legacy+cid", "13"}).Draw(t, "family")
 	c.Family = family
+	if family == "13" && c.CIDLen > 0 {
+		c.NoCID13 = rapid.IntRange(0, 2).Draw(t, "nocid13") == 0
+	}
 	for i := 0; i < n; i++ {
 		rs := RecSpec{Epoch: rapid.IntRange(0, 3).Draw(t, "epoch"), Len: rapid.SampledFrom([]int{1, 2, 16, 17, 40, 200}).Draw(t, "len")}
 		switch family {
@@ -88,7 +95,7 @@ func genPart(t *rapid.T) PartCase {
 			if rapid.IntRange(0, 2).Draw(t, "plain") == 0 {
 				rs.Kind, rs.Type, rs.Epoch = "legacy", rapid.SampledFrom([]int{21, 22, 26}).Draw(t, "type"), 0
 			} else {
-				rs.Kind, rs.SBit, rs.CID = "unified", rapid.Bool().Draw(t, "sbit"), c.CIDLen > 0
+				rs.Kind, rs.SBit, rs.CID = "unified", rapid.Bool().Draw(t, "sbit"), c.CIDLen > 0 && !c.NoCID13
 				rs.Len = max(rs.Len, 16)
 				if i == n-1 && rapid.IntRange(0, 3).Draw(t, "nolen") == 0 {
 					rs.NoLen = true
@@ -147,9 +154,12 @@ func runPart(c PartCase, r *pbt.R) {
 		unpackers = append(unpackers, "ContentAwareUnpackDatagram")
 	}
 	if c.Family == "13" {
-		got, err := recordlayer.UnpackDatagram13(dg, c.CIDLen, c.CIDLen > 0, true)
+		got, err := recordlayer.UnpackDatagram13(dg, c.CIDLen, c.CIDLen > 0 && !c.NoCID13, true)
 		check("UnpackDatagram13", got, err)
 		unpackers = append(unpackers, "UnpackDatagram13")
+		if c.NoCID13 && c.CIDLen > 0 {
+			r.Class("unified-records-without-id-with-configured-length")
+		}
 	}
 	// truncation of the datagram inside the last record must be rejected by every unpacker
 	if last := c.Recs[len(c.Recs)-1]; !last.NoLen && len(dg) > 1 {
@@ -160,7 +170,7 @@ func runPart(c PartCase, r *pbt.R) {
 			}
 		}
 		if c.Family == "13" {
-			if got, err := recordlayer.UnpackDatagram13(cut, c.CIDLen, c.CIDLen > 0, true); err == nil {
+			if got, err := recordlayer.UnpackDatagram13(cut, c.CIDLen, c.CIDLen > 0 && !c.NoCID13, true); err == nil {
 				total := 0
 				for _, g := range got {
 					total += len(g)
@@ -186,5 +196,88 @@ func init() {
 		Rule: "datagram = concatenation of 1..6 generated records (legacy, tls12_cid with CID length 0..20, DTLS 1.3 plaintext and unified-header ciphertext with S/L/C bits); " +
 			"UnpackDatagram / ContentAwareUnpackDatagram / UnpackDatagram13 must return exactly those records in order, covering every byte once, and reject a datagram cut inside its last record. " +
 			"non-trivial = >=2 records; distinct = whole case",
+	})
+}
+
+// ---- crafted borderline inputs -----------------------------------------------------------------
+
+// CraftCase is one hand-shaped input for one codec: inputs that sit exactly on a boundary a decoder
+// has to police (a list whose byte length is not a multiple of its element size, a defined message
+// type next to the unknown range, a body one byte short or long) and that single-byte mutation of
+// genuine encodings does not reach because two fields have to change together.
+type CraftCase struct {
+	Codec string `json:"codec"`
+	Hex   string `json:"hex"`
+	Note  string `json:"note"`
+}
+
+func craftCases() []CraftCase {
+	var out []CraftCase
+	add := func(codec, note string, b []byte) {
+		out = append(out, CraftCase{codec, fmt.Sprintf("%x", b), note})
+	}
+	// ACK: record_numbers<0..2^16-1> of 16-byte entries; every list length that is not a multiple of 16
+	for extra := 1; extra < 16; extra++ {
+		for _, full := range []int{0, 1, 2} {
+			n := full*16 + extra
+			add("ack", fmt.Sprintf("list of %d bytes (%d entries and %d stray bytes)", n, full, extra), append([]byte{byte(n >> 8), byte(n)}, bytes.Repeat([]byte{0x11}, n)...))
+		}
+	}
+	for _, n := range []int{0, 16, 32} {
+		add("ack", "well-formed list", append([]byte{byte(n >> 8), byte(n)}, bytes.Repeat([]byte{0x22}, n)...))
+	}
+	// RRC: msg_type (1) + cookie (8); the three defined types, the first unknown one, wrong lengths
+	for _, typ := range []byte{0, 1, 2, 3, 255} {
+		add("rrc", fmt.Sprintf("type %d with a cookie", typ), append([]byte{typ}, 1, 2, 3, 4, 5, 6, 7, 8))
+		add("rrc", fmt.Sprintf("type %d, cookie one byte short", typ), append([]byte{typ}, 1, 2, 3, 4, 5, 6, 7))
+		add("rrc", fmt.Sprintf("type %d, cookie one byte long", typ), append([]byte{typ}, 1, 2, 3, 4, 5, 6, 7, 8, 9))
+		add("rrc", fmt.Sprintf("type %d alone", typ), []byte{typ})
+	}
+	// alert: exactly two bytes
+	add("alert", "three bytes", []byte{2, 40, 0})
+	add("alert", "one byte", []byte{2})
+	// KeyUpdate: one byte, 0 or 1
+	for _, b := range [][]byte{{0}, {1}, {2}, {0, 0}, {}} {
+		add("hs.KeyUpdate", "key update body", b)
+	}
+
+	return out
+}
+
+func runCraft(c CraftCase, r *pbt.R) {
+	cd := codecIdx[c.Codec]
+	if cd == nil {
+		return
+	}
+	var b []byte
+	_, _ = fmt.Sscanf(c.Hex, "%x", &b)
+	res := checkBytes(cd, b, "raw", nil, r)
+	cl := "rejected"
+	if res.accepted {
+		cl = "accepted"
+		// a strict codec: accepted means byte-identical re-encoding (asserted inside checkBytes)
+	}
+	r.Eval(c.Codec+"|"+c.Hex, true, c.Codec+":"+cl)
+	// defined RRC types must keep their cookie, and only the exact length is a message
+	if c.Codec == "rrc" && len(b) > 0 && b[0] <= 2 {
+		if res.accepted != (len(b) == 9) {
+			r.Failf("C18|rrc|defined-type-length-not-enforced", "return-routability message %x (defined type %d, %d bytes) accepted=%v", b, b[0], len(b), res.accepted)
+		} else if res.accepted && !bytes.Equal(res.b1, b) {
+			r.Failf("C18|rrc|defined-type-loses-cookie", "return-routability message %x re-encodes to %x", b, res.b1)
+		}
+	}
+}
+
+func init() {
+	pbt.Register(pbt.Prop[CraftCase]{
+		Name: "crafted-boundary-inputs", Exhaustive: true, Run: runCraft,
+		Enum: func(_ string, yield func(CraftCase) bool) {
+			for _, c := range craftCases() {
+				if !yield(c) {
+					return
+				}
+			}
+		},
+		Rule: "hand-shaped boundary inputs (element-size remainders of the ACK list, defined/unknown return-routability types with short/long cookies, alert and KeyUpdate body lengths); rule engine + strict identity for one-encoding codecs",
 	})
 }
